@@ -62,7 +62,8 @@ CHECKS["C05"] = dict(
          "levels. Tie: text -> AST -> value compared with document::expr / Expr::run on the full operator x boundary grid, all "
          "operator-pair nestings, random trees in minimal/blank/redundant-parenthesis renderings, hostile and mutated texts. "
          "C05_parse / C05_parse_minimal / C05_parse_in_context: for every tree and every printer that parenthesises at least where the "
-         "documented levels require (left-associative binary levels, unary above all), the grammar of the model - peg's precedence "
+         "documented levels require (left-associative binary levels, unary above all) - and, C05_parse_any_blanks_and_parentheses, with any blanks and "
+         "redundant parentheses -, the grammar of the model - peg's precedence "
          "climbing over the regenerated table, at character level - reads the printed text back as that tree (generic theorem "
          "Proofs/ClimbProofs.v instantiated for the real tables, identifier and literal parsers in Proofs/ExprRoundTrip.v; fuel of the "
          "model proved sufficient).",
@@ -119,13 +120,20 @@ CHECKS["C13"] = dict(
     note=BASE + " Search: 54 devices x 111 instruction forms exhaustively.",
     tech="Coq proof (case analysis over operations and flags) + regenerated device table + exhaustive device x form runs", ref="3 C13")
 CHECKS["C14"] = dict(
-    text="PARTIAL. Proved (Props/C14.v, unbounded): letter case of mnemonics, function names, index registers, register prefix (symbol "
+    text="Proved (Props/C14.v, unbounded): letter case of mnemonics, function names, index registers, register prefix (symbol "
          "references: C10_case); blank lines and comment-only lines with ANY comment text parse to the empty line and the line loop "
-         "passes over it without touching the state; CR LF and LF split into the same lines. Not proved: blanks around operands, commas "
-         "and operators, trailing comments after a statement, radix of numbers - these rest on the metamorphic search (every token of "
-         "structured programs respelled independently, images and sizes compared) and on the correspondence." + PROG,
-    note=BASE + " Directive-name case, 0X/0B prefixes and label indentation are not among the property's listed rewrites.",
-    tech="Coq proof for case / blank / comment / CRLF invariance + metamorphic respelling search + differential correspondence", ref="3 C14")
+         "passes over it without touching the state; CR LF and LF split into the same lines; C14_radix - for every value below 2^63 and "
+         "every letter case of the digits, $hex, 0xhex, 0bbinary, 0octal and decimal are read as the same number; "
+         "C14_expression_blanks_and_parentheses / _in_context - for every expression, whatever blanks are written at every place where "
+         "the grammar skips them (around binary operators, inside parentheses, before a function's parenthesis) and however many "
+         "redundant parentheses are added, the text parses to the same expression (decorated-tree round trip over the generic climbing "
+         "parser, instantiated for the regenerated tables). PARTIAL: blanks around operands and commas of a statement and trailing "
+         "comments after a statement are line-level and rest on the metamorphic search (every token of structured programs respelled "
+         "independently, images and sizes compared) and on the correspondence." + PROG,
+    note=BASE + " Directive-name case, 0X/0B prefixes, blanks after a block comment and label indentation are not among the property's "
+         "listed rewrites (the grammar rejects the first three).",
+    tech="Coq proof (case / blank / comment / CRLF invariance; radix; decorated-expression round trip) + metamorphic respelling search + "
+         "differential correspondence", ref="3 C14")
 CHECKS["C15"] = dict(
     text="Theorems C15_pass2 / C15_pass1 / C15_syntax / C15_directive (Props/C15.v): errors are structured in the model (Err (Some n) = the "
          "text names line n); for every item, state and program, every error raised in pass 2 (operand kind/range/count, undefined symbol "
